@@ -172,7 +172,17 @@ class Sh:
             funcs, prog = g.program()
             b = ml.bounded(funcs, prog)
             if b is None or b[1][0] != "ok": continue           # interactive mode goes on after an error and prints returned values: only error-free, return-free programs are compared
-            text = ml.render(funcs, prog, r)
+            # layout: one top-level statement per line, or several statements packed on a line (free-form language: the
+            # interactive loop must execute every statement of a line, also the ones after an `end loop;`)
+            chunks = ml.render(funcs, prog, r, toplevel_split=True)
+            if i % 2 == 0:
+                text = "\n".join(chunks) + "\n"
+            else:
+                text = chunks[0]
+                for c in chunks[1:]:
+                    text += r.choice(["\n", " ", " ", "  "]) + c
+                text += "\n"
+                bump(self.res, "interactive_programs_with_packed_lines")
             if re.search(r"^\s*(exit|clear|list|load|save|run|desc|dump|help|copyright|license|=|!)", text, re.M): continue
             L = self.lib(text, [])
             if L is None or not L["compiled"] or L["outcome"] != "ok": continue
